@@ -14,12 +14,14 @@
 (* fault every call succeeds and the archive is the ArchiveMap of the calls.         *)
 EXTENDS Integers, Sequences, FiniteSets, TLC
 CONSTANTS Templates,     \* sequences of abstract calls
-          FaultKinds, Schedules
+          FaultKinds, Schedules,
+          Declines       \* which files the extraction's file callback declines (returns non-zero): they get no writer and
+                         \* nothing is delivered for them; every other file's bytes go to the writer supplied FOR IT
 
 \* calls: <<"cfg">>, <<"key">>, <<"level">>, <<"new">>, <<"file", f>>, <<"append", f, len>>, <<"flush">>, <<"close", f>>, <<"end">>,
 \*        <<"renew">> (mla_archive_new again with the consumed config), <<"append_closed", f>>, <<"file_after_end", f>>
-VARIABLES tpl, fault, sched, expect, phase
-vars == <<tpl, fault, sched, expect, phase>>
+VARIABLES tpl, fault, sched, decline, expect, phase
+vars == <<tpl, fault, sched, decline, expect, phase>>
 
 Calls == Templates[tpl]
 \* calls that use a handle which the interface cleared earlier: must fail cleanly whatever else happens
@@ -28,7 +30,7 @@ UsesCleared(c) == c[1] \in {"renew", "append_closed", "file_after_end", "close_a
 Writes(c) == c[1] \in {"new", "file", "append", "close", "end", "flush"}
 TakesHandle(c) == c[1] # "cfg"
 
-Init == /\ tpl \in DOMAIN Templates /\ sched \in Schedules
+Init == /\ tpl \in DOMAIN Templates /\ sched \in Schedules /\ decline \in Declines
         /\ fault \in {[k |-> 0, kind |-> "none"]} \cup
                      { [k |-> k, kind |-> f] : k \in 1..Len(Templates[tpl]), f \in FaultKinds }
         /\ (fault.kind = "null" => TakesHandle(Templates[tpl][fault.k]) /\ ~UsesCleared(Templates[tpl][fault.k]))
@@ -46,7 +48,7 @@ ExpectAt(i) ==
   ELSE "ok"
 Run == /\ phase = "init" /\ phase' = "done"
        /\ expect' = [i \in 1..Len(Calls) |-> ExpectAt(i)]
-       /\ UNCHANGED <<tpl, fault, sched>>
+       /\ UNCHANGED <<tpl, fault, sched, decline>>
 Spec == Init /\ [][Run]_vars
 \* the archive must be complete and equal to the ArchiveMap of the template iff no callback failed
 ArchiveComplete == fault.kind # "cbfail"
